@@ -23,9 +23,9 @@ Front(k)  == SubSeq(f, 1, Len(f) - k)
 AddLeaf   == \E l \in AllLeaves : f' = Append(f, l)
 WrapGrp   == \E k \in 1..Len(f), t \in GroupKinds : f' = Append(Front(k), Grp(t, Last(k)))
 WrapCond  == \E k \in 1..Len(f), u \in FlagNames, neg \in BOOLEAN : f' = Append(Front(k), Cond(u, neg, Last(k)))
-Next == AddLeaf \/ WrapGrp \/ WrapCond
+\* (the bound is a guard, not a CONSTRAINT: TLC evaluates invariants on states outside a constraint)
+Next == Size(f) < MaxNodes /\ (AddLeaf \/ WrapGrp \/ WrapCond)
 Spec == Init /\ [][Next]_f
-Bound == Size(f) <= MaxNodes
 
 TypeOK == WellFormed(f)
 
@@ -45,14 +45,13 @@ InvEvaluate == \A U \in SUBSET Flags(f) :
                  /\ ~HasCond(e)
                  /\ WellFormed(e)
                  /\ Leaves(e) \subseteq Leaves(f)
-                 /\ EvaluatedMeaning(f, U, e, Leaves(f))
+                 /\ EvaluatedMeaning(f, U, e)
+                 \* the shortcuts of the meaning comparison are sound
+                 /\ \A T \in SUBSET Leaves(f) : /\ Sat(f, U, T) = Sat(f, U, T \cap Leaves(e))
+                                                /\ (Unspec(f, U, T) => Risky(f))
+                                                /\ Sat(e, {}, T) = Sat(f, U, T) \/ Unspec(f, U, T)
 
 \* one-token corruptions
-Extra == {LP, RP, ARROW, Tok("op", "||", FALSE), Tok("cond", "u", FALSE), Tok("leaf", "zz", FALSE)}
-Drop(s, k)      == SubSeq(s, 1, k - 1) \o SubSeq(s, k + 1, Len(s))
-Ins(s, k, x)    == SubSeq(s, 1, k) \o <<x>> \o SubSeq(s, k + 1, Len(s))
-Corruptions(s)  == {Drop(s, k) : k \in DOMAIN s} \cup {Ins(s, k, s[k]) : k \in DOMAIN s}
-                   \cup {Ins(s, k, x) : <<k, x>> \in (0..Len(s)) \X Extra}
 Full == Flavour({"||", "^^", "??"}, TRUE, TRUE)
 Classified(c) == LET p == Parse(c, Full) IN
                  /\ (p.st = "error") = (~IrregularArrow(c) /\ (Unbalanced(c) \/ Dangling(c)))
